@@ -712,3 +712,17 @@ m("x8-stepfn-mut-stride-one", "C06", VM, _CSV_ORIG, _csm(stride="1"), "?")
 m("x8-stepfn-mut-no-gate", "C06", VM, _CSV_ORIG, _csm(gate=""), "?")
 m("x8-sweep-option-bitmap-none-dirty", "C05", BM, "            return inner.dirty_at(offset);\n        }\n        false", "            return inner.dirty_at(offset);\n        }\n        true", "R5.3.option_none_clean")
 m("x8-sweep-get-slice-args-swapped", "C01", VM, "        self.subslice(offset, count)", "        self.subslice(count, offset)", "R1.2.get_slice_forward")
+
+# ---- batch x9: seed round 9 (secondary layers) -> R18.4.mark_entry, R5.1.extent element units, R3.6.slice_exact_form
+_MD = "        self.set_addr_range(offset, len)\n    }"
+m("x9-mark-dirty-fast-path-len0", "C18", AB, _MD,
+  "        if len <= self.page_size.get() - offset % self.page_size {\n            return self.set_bit(offset / self.page_size);\n        }\n" + _MD, "R18.4.mark_entry")
+m("x9-mark-dirty-len-rounded", "C18", AB, _MD, "        self.set_addr_range(offset, len.max(1))\n    }", "R18.4.mark_entry")
+m("x9-array-copy-elements-mark-count", "C05", VM,
+  "            let count = min(self.len() * self.element_size(), slice.size);\n            // Access both sides through pointer guards, so that memory which is mapped on\n            // demand is mapped for the duration of the copy.\n            let src = self.ptr_guard();\n            let dst = slice.ptr_guard_mut();\n            copy(src.as_ptr(), dst.as_ptr(), count);",
+  "            if self.element_size() == 0 {\n                return;\n            }\n            let count = min(self.len(), slice.size / self.element_size());\n            let src = self.ptr_guard();\n            let dst = slice.ptr_guard_mut();\n            copy(src.as_ptr().cast::<Packed<T>>(), dst.as_ptr().cast::<Packed<T>>(), count);",
+  "R5.1.extent")
+m("x9-slice-exact-single-read", "C03", VM,
+  "        src.read_exact_volatile(&mut self.get_slice(addr, count)?)",
+  "        let len = self.read_volatile_from(addr, src, count)?;\n        if len != count {\n            return Err(Error::PartialBuffer {\n                expected: count,\n                completed: len,\n            });\n        }\n        Ok(())",
+  "R3.6.slice_exact_form")
